@@ -301,24 +301,28 @@ func (r *Request) transferError(err error) {
 
 // called from worker to handle packet/request
 func (r *Request) call(handlers Handlers, pkt requestPacket, alloc *allocator, orderID uint32, maxTxPacket uint32) responsePacket {
+	// A READ or WRITE on a predicted handle can arrive while the OPEN that creates the handle is still being set up by
+	// another worker: Method is read once, under the lock open() and opendir() set it under.
+	method := r.getMethod()
+
 	// A handle only accepts the request types it was opened for: a READ on a directory handle must not be
 	// answered with a NAME packet, nor a READDIR on a file handle with a DATA packet.
 	switch pkt.(type) {
 	case *sshFxpReadPacket:
-		if r.Method != "Get" && r.Method != "Open" {
+		if method != "Get" && method != "Open" {
 			return statusFromError(pkt.id(), errors.New("unexpected read packet"))
 		}
 	case *sshFxpWritePacket:
-		if r.Method != "Put" && r.Method != "Open" {
+		if method != "Put" && method != "Open" {
 			return statusFromError(pkt.id(), errors.New("unexpected write packet"))
 		}
 	case *sshFxpReaddirPacket:
-		if r.Method != "List" {
+		if method != "List" {
 			return statusFromError(pkt.id(), errors.New("unexpected dir packet"))
 		}
 	}
 
-	switch r.Method {
+	switch method {
 	case "Get":
 		return fileget(handlers.FileGet, r, pkt, alloc, orderID, maxTxPacket)
 	case "Put":
@@ -337,8 +341,22 @@ func (r *Request) call(handlers Handlers, pkt requestPacket, alloc *allocator, o
 		}
 		return filestat(handlers.FileList, r, pkt)
 	default:
-		return statusFromError(pkt.id(), fmt.Errorf("unexpected method: %s", r.Method))
+		return statusFromError(pkt.id(), fmt.Errorf("unexpected method: %s", method))
 	}
+}
+
+// getMethod and setMethod guard Method while the request is shared between the worker that opens it and the workers that
+// serve reads and writes on its handle.
+func (r *Request) getMethod() string {
+	r.state.mu.RLock()
+	defer r.state.mu.RUnlock()
+	return r.Method
+}
+
+func (r *Request) setMethod(method string) {
+	r.state.mu.Lock()
+	defer r.state.mu.Unlock()
+	r.Method = method
 }
 
 // Additional initialization for Open packets
@@ -351,7 +369,7 @@ func (r *Request) open(h Handlers, pkt requestPacket) responsePacket {
 	case flags.Write, flags.Append, flags.Creat, flags.Trunc:
 		if flags.Read {
 			if openFileWriter, ok := h.FilePut.(OpenFileWriter); ok {
-				r.Method = "Open"
+				r.setMethod("Open")
 				rw, err := openFileWriter.OpenFile(r)
 				if err != nil {
 					return statusFromError(id, err)
@@ -366,7 +384,7 @@ func (r *Request) open(h Handlers, pkt requestPacket) responsePacket {
 			}
 		}
 
-		r.Method = "Put"
+		r.setMethod("Put")
 		wr, err := h.FilePut.Filewrite(r)
 		if err != nil {
 			return statusFromError(id, err)
@@ -375,7 +393,7 @@ func (r *Request) open(h Handlers, pkt requestPacket) responsePacket {
 		r.setWriterAt(wr)
 
 	case flags.Read:
-		r.Method = "Get"
+		r.setMethod("Get")
 		rd, err := h.FileGet.Fileread(r)
 		if err != nil {
 			return statusFromError(id, err)
@@ -394,7 +412,7 @@ func (r *Request) open(h Handlers, pkt requestPacket) responsePacket {
 }
 
 func (r *Request) opendir(h Handlers, pkt requestPacket) responsePacket {
-	r.Method = "List"
+	r.setMethod("List")
 	la, err := h.FileList.Filelist(r)
 	if err != nil {
 		return statusFromError(pkt.id(), wrapPathError(r.Filepath, err))
